@@ -476,6 +476,17 @@ def deleteResource (st : State) (r : Nat) : State × List Out :=
 
 /-! ### one event -/
 
+/-- which server-initiated datagram an `ack c n` / `rst c n` event means: n < 1000 absolute index, n = 1000 + k the k-th most
+    recent one (so that generated histories hit existing datagrams without knowing how many there are) -/
+def noteIdx (len n : Nat) : Option Nat :=
+  if n ≥ 1000 then (if n - 1000 < len then some (len - 1 - (n - 1000)) else none)
+  else if n < len then some n else none
+
+def lookupNote (st : State) (c n : Nat) : Option Note :=
+  match noteIdx (st.notes c).length n with
+  | some i => (st.notes c)[i]?
+  | none => none
+
 def rxThenIo (p : State × List Out) : State × List Out :=
   let (st1, o1) := p
   let (st2, o2) := io st1
@@ -489,11 +500,11 @@ def step (st : State) (e : Event) : State × List Out :=
   | .chg r => (change st r, [])
   | .adv ms => io { st with now := st.now + ms }
   | .ack c n =>
-    match (st.notes c)[n]? with
+    match lookupNote st c n with
     | some nt => if nt.con then rxThenIo (handleAck st c nt.mid, []) else (st, [])
     | none => (st, [])
   | .rst c n =>
-    match (st.notes c)[n]? with
+    match lookupNote st c n with
     | some nt => rxThenIo (handleRst st c nt.mid, [])
     | none => (st, [])
   | .err r b => (modRes st r fun y => { y with err := b }, [])
